@@ -50,6 +50,7 @@ type State struct {
 	ghost    map[string]Term
 	visit    map[*ssa.BasicBlock]int
 	pc       []string
+	checked  []string // names of the obligations checked so far on this path (their goals are in pc)
 	defers   []deferred
 	nalloc   int
 	epoch    int      // bumped on every havoc of heaps/globals; names lazily created symbols
@@ -145,6 +146,7 @@ func (s *State) clone() *State {
 		n.visit[k] = v
 	}
 	n.pc = append(make([]string, 0, len(s.pc)+16), s.pc...)
+	n.checked = append(make([]string, 0, len(s.checked)+8), s.checked...)
 	n.defers = append([]deferred{}, s.defers...)
 	n.nalloc = s.nalloc
 	n.epoch = s.epoch
@@ -186,6 +188,7 @@ type Oblig struct {
 	Adapter string     // replay adapter chosen for this obligation
 	Classes []string   // known-finding classes for this obligation, evaluated in the obligation's state
 	Expect string      // "" => must be unsat (valid). "sat" => cover query
+	PathDeps []string  // names of the obligations checked earlier on this path, whose goals are assumed here
 }
 
 type Loop struct {
